@@ -23,7 +23,8 @@ type Ev struct {
 	Parent string // for pseudo-ops: the call they were decomposed from
 	CBAmbig  bool    // a SetEvictedCallback overlaps this call: it may have used the callback in force before or after
 	DefCands []int64 // default expirations set by SetDefaultExpiration calls overlapping this call (it may have read any of them)
-	Nows   []int64 // ticking-clock mode: the instants the call read (liveness by the first, stamping by the last)
+	Nows   []int64 // ticking-clock mode, pseudo-ops: [first clock read, clock at return] (the span the call may decide in)
+	Reads  []int64 // ticking-clock mode, ordinary calls: every instant the call read; it may decide visibility by any of them and stamp a new expiry from any of them
 }
 
 const Pending = math.MaxInt64
@@ -167,8 +168,28 @@ func (s *searcher) dfs(st *model.M, mask uint64, depth int) bool {
 				variants = append(variants, c)
 			}
 		}
+		if len(e.Reads) > 0 {
+			// which of its clock reads a call uses for which decision is an implementation detail
+			base := variants
+			variants = nil
+			for _, b := range base {
+				for _, lv := range e.Reads {
+					for _, st := range e.Reads {
+						c := b.Clone()
+						c.DOvr, c.CBFlip = b.DOvr, b.CBFlip
+						c.PinNow, c.PinStamp = lv, st
+						variants = append(variants, c)
+					}
+				}
+			}
+		}
 		for _, c := range variants {
-			c.At(e.Nows)
+			if c.PinNow != 0 {
+				c.At([]int64{c.PinNow, c.PinStamp})
+				c.PinNow, c.PinStamp = 0, 0
+			} else {
+				c.At(e.Nows)
+			}
 			err := c.Step(&e.Op, e.Res)
 			c.DOvr = nil
 			if c.CBFlip {
